@@ -357,6 +357,8 @@ class State:
             del d[kk]
         for kk in [kk for kk, vv in d.items() if isinstance(vv, SymV) and term_mentions(vv.t, k)]:
             del d[kk]
+        for kk in [kk for kk in d if kk.startswith("\u00a7rel:") and k in kk[5:].split("|")]:
+            del d[kk]
         if term is not None and not term_mentions(term, k):
             d["\u00a7" + k] = SymV(term)
         return State(d)
@@ -572,6 +574,8 @@ class Interp:
                 return self._const(c)
             # element of a folded constant table: join of all elements
             tbl = M.fold(e.value, fn.cls, fn.mod)
+            if isinstance(tbl, dict):
+                tbl = list(tbl.values())
             if isinstance(tbl, (list, tuple, bytes)) and tbl and all(isinstance(x, int) for x in tbl):
                 return Iv(min(tbl), max(tbl))
             t = self.R.type_of(e, self.R.scope(fn))
@@ -645,6 +649,10 @@ class Interp:
             c = M.fold(e, fn.cls, fn.mod)
             if c is not UNKNOWN:
                 return self._const(c)
+        elif fn.cls is not None and self._is_class_constant(fn.cls, mangle(M.mangling_class(e) or fn.cls.name, e.attr)):
+            c = M.fold(e, fn.cls, fn.mod)
+            if c is not UNKNOWN and not isinstance(c, (list, dict)):
+                return self._const(c)
         base = self.ev(e.value, st, fn, depth)
         mcls = M.mangling_class(e) or (fn.cls.name if fn.cls else None)
         mattr = mangle(mcls, e.attr) if e.attr.startswith("__") and not e.attr.endswith("__") else e.attr
@@ -713,6 +721,14 @@ class Interp:
         if isinstance(op, ast.Sub):
             rel = self._rel_linear(e, st, fn)
             plain = iv_sub(x, y)
+            if isinstance(e.left, (ast.Name, ast.Attribute)) and isinstance(e.right, (ast.Name, ast.Attribute)):
+                ka, kb = self.key_of(e.left, fn), self.key_of(e.right, fn)
+                f1 = st.get("\u00a7rel:" + str(ka) + "|" + str(kb))
+                f2 = st.get("\u00a7rel:" + str(kb) + "|" + str(ka))
+                if isinstance(f1, Iv):
+                    plain = Iv(max(plain.lo, f1.lo), min(plain.hi, f1.hi), plain.prec)
+                if isinstance(f2, Iv):
+                    plain = Iv(max(plain.lo, -f2.hi), min(plain.hi, -f2.lo), plain.prec)
             if rel is not None:
                 return Iv(max(rel.lo, plain.lo), min(rel.hi, plain.hi), rel.prec)
             return plain
@@ -1059,6 +1075,24 @@ class Interp:
             if ec is not None and (self.M.is_subclass(ec, "IntEnum") or self.M.is_subclass(ec, "IntFlag")) and isinstance(fx, ast.Name):
                 return [(args[0], st)]  # IntEnum(value) carries the numeric value
         return [(self._default_for_type(t), st)]
+
+    _cc_memo: dict[tuple[int, str], bool] = {}
+
+    def _is_class_constant(self, c: Cls, mattr: str) -> bool:
+        """self.X where X is a class-level constant never stored as an instance field anywhere in the class hierarchy."""
+        key = (id(c), mattr)
+        if key not in self._cc_memo:
+            ok = self.M.find_class_attr(c, mattr) is not None
+            if ok:
+                for k in self.M.mro(c):
+                    for f in k.all_defs:
+                        if isinstance(f.node, ast.Lambda):
+                            continue
+                        for n in ast.walk(f.node):
+                            if isinstance(n, ast.Attribute) and isinstance(n.ctx, ast.Store) and mangle(k.name, n.attr) == mattr:
+                                ok = False
+            self._cc_memo[key] = ok
+        return self._cc_memo[key]
 
     _abs_memo: dict[int, bool] = {}
 
@@ -1451,6 +1485,12 @@ class Interp:
             s = setv(s, l, na)
         if isinstance(b, (Iv, Top)) or b is None:
             s = setv(s, r, nb)
+        # difference fact between two variables (a - b in ...), used by a later subtraction of the same two variables
+        if isinstance(l, (ast.Name, ast.Attribute)) and isinstance(r, (ast.Name, ast.Attribute)) and t in (ast.Lt, ast.LtE, ast.Gt, ast.GtE) and not (x.const or y.const):
+            ka, kb = self.key_of(l, fn), self.key_of(r, fn)
+            if ka and kb and ka != kb:
+                d = {ast.Gt: Iv(1, INF), ast.GtE: Iv(0, INF), ast.Lt: Iv(-INF, -1), ast.LtE: Iv(-INF, 0)}[t]
+                s = s.refine("\u00a7rel:" + ka + "|" + kb, d)
         return [s]
 
     def _obj_compare(self, l: ast.expr, op: ast.cmpop, r: ast.expr, a: AV, b: AV, st: State, fn: Func, truth: bool, depth: int) -> list[State]:
